@@ -110,7 +110,7 @@ def build_program(r):
     pk = r.choice(('none', 'semi', 'comma', 'lead'))
     inp = {'k': 'input', 'lvs': targets, 'prompt': None, 'psep': ';', 'semi': False}
     if pk in ('semi', 'comma', 'lead'):
-        inp['prompt'] = r.choice(('p', 'Enter value', 'a, b', '?'))
+        inp['prompt'] = r.choice(('p', 'Enter value', 'a, b', '?', '', ''))
         inp['psep'] = ',' if pk == 'comma' else ';'
     if pk == 'lead':
         inp['semi'] = True
@@ -187,6 +187,11 @@ def bad_field(r, t, cls):
     if cls == 'range':
         if t == '%':
             return r.choice(('32768', '-32769', '40000', '99999999'))
+        if t == '!':
+            # plain decimals beyond the SINGLE range (3.4E38)
+            return r.choice(('4' + '0' * 38, '-4' + '0' * 38, '1' + '0' * 39 + '.5'))
+        if t == '#':
+            return r.choice(('1' + '0' * 309, '-2' + '0' * 310))
         return r.choice(('2147483648', '-2147483649', '3000000000', '99999999999'))
     if cls == 'pyspell':
         if t in '%&':
@@ -206,8 +211,7 @@ def make_responses(r, tys, nrej):
             choices.append('few')
         if numeric:
             choices += ['alpha', 'alpha', 'pyspell']
-            if any(tys[i] in '%&' for i in numeric):
-                choices.append('range')
+            choices.append('range')
         cls = r.choice(choices)
         pos = None
         if cls == 'few':
@@ -216,7 +220,7 @@ def make_responses(r, tys, nrej):
         elif cls == 'many':
             fields.append(r.choice(('1', 'x', '')))
         else:
-            cand = numeric if cls != 'range' else [i for i in numeric if tys[i] in '%&']
+            cand = numeric
             pos = r.choice(cand)
             fields[pos] = bad_field(r, tys[pos], cls)
         out.append([','.join(fields), False, cls, pos])
